@@ -257,9 +257,14 @@ func isMap(t types.Type) bool     { _, ok := under(t).(*types.Map); return ok }
 
 // wrapInt wraps a mathematical integer term into the range of type t.
 // mode "addsub": operands were in range so a single correction suffices.
+var arithMath = false
+
 func wrapInt(v *Term, t types.Type, single bool) *Term {
 	min, max := intRange(t)
 	if min == nil {
+		return v
+	}
+	if arithMath && !v.isInt() {
 		return v
 	}
 	if v.isInt() {
